@@ -143,7 +143,8 @@ func init() {
 	properties["C05"] = &property{
 		ID: "C05", Level: "model_checking", Kinds: []string{"write"},
 		Harnesses: append(visitHarnesses(map[string]int{"K": 3, "B": 2, "strlen": 8, "paths": 1000, "wall_s": 25}, map[string]int{"K": 4, "B": 2, "strlen": 8, "paths": 4000, "wall_s": 30}),
-			harness{Name: "gsxC18FailurePolicy", Pkg: "checkers", Quick: map[string]int{"strlen": 16}, NoValidate: true}),
+			harness{Name: "gsxC18FailurePolicy", Pkg: "checkers", Quick: map[string]int{"strlen": 16}, NoValidate: true},
+			harness{Name: "gsxC05SizeOf", Pkg: "linter", Quick: map[string]int{"K": 2, "strlen": 6, "paths": 2000, "wall_s": 60}, NoValidate: true, Tolerant: true, ReplayFn: replayCtxSizeOf, MustReach: []string{"sized"}}),
 		Assumptions: []string{"as C01; write monitor on every cell of the lazily created syntax tree, the types.Info tables and the registered parameter values"},
 	}
 	properties["C01"] = &property{
